@@ -833,6 +833,67 @@ def rule_pickle_guard(ctx: Ctx) -> None:
             "state is returned only under a test of `shared`, otherwise raises", "__getstate__ returns the state on a path that does not test `shared` (or never raises): non-shared caches are pickled silently", key="getstate-guard")
 
 
+def _applied_when(fn: FuncInfo, call: ast.Call) -> ast.AST:
+    """The condition under which `call` is evaluated inside `fn`: conjunction of the enclosing if / conditional-expression tests."""
+    par = _parents(fn.node)
+    d = Defs(fn)
+    conj: list[ast.AST] = []
+    x: ast.AST = call
+    while id(x) in par:
+        child, x = x, par[id(x)]
+        if isinstance(x, (ast.If, ast.IfExp)):
+            t = d.resolve(x.test)
+            in_body = child is x.body or (isinstance(x.body, list) and any(child is b_ for b_ in x.body))
+            in_else = child is x.orelse or (isinstance(x.orelse, list) and any(child is b_ for b_ in x.orelse))
+            if in_body:
+                conj.append(t)
+            elif in_else:
+                conj.append(ast.UnaryOp(op=ast.Not(), operand=t))
+    return ast.BoolOp(op=ast.And(), values=conj) if conj else ast.Constant(value=True)
+
+
+def rule_codec_symmetric(ctx: Ctx) -> None:
+    """What put() serialises, get() deserialises - under the SAME condition.  The two sides are compared as truth tables over the
+    atoms of their guards; a condition on the stored VALUE on one side only (e.g. `not isinstance(value, bytes)` in put) cannot be
+    known to the other side: get() then unpickles bytes that were stored as they were (UnpicklingError, or a different object)."""
+    import itertools
+
+    from ..flow import bool_atoms, bool_eval
+
+    n = 0
+    for cname in SHARED:
+        cls = ctx.prog.cls(f"{MOD}.{cname}")
+        put, get = cls.methods.get("put"), cls.methods.get("get")
+        if put is None or get is None:
+            continue
+        enc = [c for c in ast.walk(put.node) if isinstance(c, ast.Call) and dotted(c.func).endswith(".dumps")]
+        dec = [c for c in ast.walk(get.node) if isinstance(c, ast.Call) and dotted(c.func).endswith(".loads")]
+        if not enc and not dec:
+            continue
+        n += 1
+        if not enc or not dec:
+            ctx.add("6-pickle-guard", put if dec else get, (put if dec else get).node, False, f"{cname}: {'get() deserialises but put() never serialises' if dec else 'put() serialises but get() never deserialises'}", key=f"codec {cname}")
+            continue
+        ge, gd = _applied_when(put, enc[0]), _applied_when(get, dec[0])
+        atoms = sorted(set(bool_atoms(ge)) | set(bool_atoms(gd)))
+        if len(atoms) > 8:
+            ctx.add("6-pickle-guard", put, enc[0], None, f"UNDECIDED: {cname}: too many conditions around dumps/loads to compare", key=f"codec {cname}")
+            continue
+        diff = None
+        for vals in itertools.product((True, False), repeat=len(atoms)):
+            env = dict(zip(atoms, vals))
+            a, b = bool_eval(ge, env), bool_eval(gd, env)
+            if a is not None and b is not None and a != b:
+                diff = env
+                break
+        one_sided = sorted((set(bool_atoms(ge)) ^ set(bool_atoms(gd))))
+        ctx.tri("6-pickle-guard", put, enc[0], diff is None and not one_sided, diff is not None, f"{cname}: put() serialises exactly when get() deserialises (`{norm(ge)[:60]}`)",
+                f"{cname}: put() serialises under `{norm(ge)[:80]}` but get() deserialises under `{norm(gd)[:60]}`: they differ when {diff} - "
+                f"a value stored as it is (condition {one_sided[:1]} is known to one side only) is unpickled on the way out: a cached call returns something else than the first call, or raises",
+                f"{cname}: guards of dumps/loads use different conditions {one_sided}", key=f"codec {cname}")
+    ctx.floor("6-pickle-guard.codec", n, 2)
+
+
 def rule_disk_bound(ctx: Ctx) -> None:
     fn = ctx.prog.func(f"{MOD}.DiskCache.put")
     cfg = ctx.cfg(fn)
@@ -1063,7 +1124,7 @@ def rule_proxy_iteration(ctx: Ctx) -> None:
 
 
 def check(ctx: Ctx) -> None:
-    for rule in (rule_disk_levels, rule_stores, rule_lock, rule_invariant, rule_policy, rule_retire, rule_division, rule_pickle_guard, rule_disk_bound, rule_disk_truth, rule_negative_slice, rule_containers_bound_once, rule_proxy_iteration):
+    for rule in (rule_disk_levels, rule_stores, rule_lock, rule_invariant, rule_policy, rule_retire, rule_division, rule_pickle_guard, rule_codec_symmetric, rule_disk_bound, rule_disk_truth, rule_negative_slice, rule_containers_bound_once, rule_proxy_iteration):
         ctx.run(rule)
 
 
